@@ -593,6 +593,33 @@ fn classic_compile_run_k(_case: &Value, inputs: &Value) -> Value {
     json!({"compiled": tree_to_json(&a, prog), "result": result})
 }
 
+// stepping evaluator vs clvmr on (program tree, env tree), both given as CLVM trees
+fn run_both_tree_k(_case: &Value, inputs: &Value) -> Value {
+    use chialisp::compiler::clvm::{convert_from_clvm_rs, convert_to_clvm_rs, run, NewStyleIntConversion};
+    use chialisp::compiler::prims::prim_map;
+    use chialisp::compiler::srcloc::Srcloc;
+    use chialisp::classic::clvm_tools::stages::stage_0::TRunProgram;
+    let _g = NewStyleIntConversion::new(true);
+    let mut a = Allocator::new();
+    let p = json_to_tree(&mut a, &inputs["prog"]);
+    let e = json_to_tree(&mut a, &inputs["env"]);
+    let runner = Rc::new(DefaultProgramRunner::new());
+    let rp = convert_from_clvm_rs(&mut a, Srcloc::start("*t*"), p).unwrap();
+    let re = convert_from_clvm_rs(&mut a, Srcloc::start("*t*"), e).unwrap();
+    let stepper = match run(&mut a, runner.clone(), prim_map(), rp, re, None, Some(100000)) {
+        Ok(v) => match convert_to_clvm_rs(&mut a, v) {
+            Ok(n) => json!({"ok": tree_to_json(&a, n)}),
+            Err(_) => json!({"err": true}),
+        },
+        Err(_) => json!({"err": true}),
+    };
+    let cl = match runner.run_program(&mut a, p, e, None) {
+        Ok(r) => json!({"ok": tree_to_json(&a, r.1)}),
+        Err(_) => json!({"err": true}),
+    };
+    json!({"stepper": stepper, "clvmr": cl})
+}
+
 // assemble(text) -> tree (used to evaluate constant patterns natively)
 fn assemble_k(_case: &Value, inputs: &Value) -> Value {
     let mut a = Allocator::new();
@@ -607,6 +634,7 @@ pub fn dispatch(kernel: &str, case: &Value, inputs: &Value) -> Value {
         "assemble" => assemble_k(case, inputs),
         "int_from_bytes" => int_from_bytes_k(case, inputs),
         "decode" => decode_k(case, inputs),
+        "run_both_tree" => run_both_tree_k(case, inputs),
         "classic_compile_run" => classic_compile_run_k(case, inputs),
         "name_lookup" => compile_run_k(case, inputs),
         "compile_run" => compile_run_k(case, inputs),
